@@ -128,8 +128,11 @@ func (fr *Frame) step(ins ssa.Instruction, st *State) {
 		}
 	case *ssa.Go:
 		fr.unsup("go statement")
-	case *ssa.Send, *ssa.Select:
-		fr.unsup("channel operation")
+	case *ssa.Send:
+		// channel sends are not modelled (listed): the enqueue effect is ignored
+		vc.assumes["channel sends are no-ops (enqueue effects are not modelled)"] = true
+	case *ssa.Select:
+		fr.unsup("select statement")
 	case *ssa.MultiConvert:
 		fr.vals[ins] = fr.val(ins.X)
 	case *ssa.SliceToArrayPointer:
